@@ -135,7 +135,7 @@ def run_shard(spec):
                 # results of every built-in kind (each is filed by its own state type)
                 g._numeric_prefix = False
                 q = "mk-%s-%d/%s" % (rnd.choice(["list", "dict", "udict", "nested", "df", "bytes", "text", "none", "float", "tuple", "pairs",
-                                                  "matrix", "lod", "tlist"]), rnd.choice([1, 2, 3]), g.query(0, first=False, max_len=2))
+                                                  "matrix", "lod", "tlist", "inf", "nan"]), rnd.choice([1, 2, 3]), g.query(0, first=False, max_len=2))
             elif rnd.random() < 0.12:
                 q = rnd.choice(["res.txt", "dir/n.json", "-R/dir/sub/b.bin"]) + "/-/" + g.query(0, first=False, max_len=3)
             else:
